@@ -162,6 +162,8 @@ def to_rat(node, env=None, atom_of=None):
             return -v
         if isinstance(node.op, ast.UAdd):
             return v
+    if isinstance(node, ast.BinOp) and isinstance(node.op, ast.MatMult):
+        return Rat(Poly.atom(atom_of(node)))        # a matrix product is an opaque factor of the scalar arithmetic around it
     if isinstance(node, ast.BinOp):
         a = to_rat(node.left, env, atom_of)
         b = to_rat(node.right, env, atom_of)
